@@ -153,6 +153,8 @@ def run_property(pid, tier, seed, replay=None):
         if v.get("what"):
             print("  " + v["what"][:500])
     coverage["known_findings_reported"] = known_lines
+    if broken:
+        coverage["broken_proof_obligations_or_tie"] = broken
     if coverage.get("discharged", 0) < 1:
         coverage.pop("discharged", None)
         coverage.pop("obligations", None)
